@@ -18,6 +18,7 @@ import (
 	"sync"
 
 	zmq "github.com/pebbe/zmq4"
+	"github.com/refraction-networking/conjure/internal/verifhook"
 	"github.com/refraction-networking/conjure/pkg/core"
 	"github.com/refraction-networking/conjure/pkg/core/interfaces"
 	"github.com/refraction-networking/conjure/pkg/metrics"
@@ -509,6 +510,7 @@ func (p *RegProcessor) processBdReq(c2sPayload *pb.C2SWrapper) (*pb.Registration
 		regResp.Ipv4Addr = &addr4
 		phantomSubnetSupportsRandPort = phantom4.SupportRandomPort()
 	}
+	verifhook.Yield("bdreq:between-selections")
 
 	if c2s.GetV6Support() {
 		p.selectorMutex.RLock()
